@@ -39,7 +39,7 @@ func (c *Check) registryLocked(rule string) {
 			}
 		})
 		allInstrs(fn, func(in ssa.Instruction) {
-			if r, ok := in.(*ssa.Return); ok {
+			if r, ok := in.(*ssa.Return); ok && in.Parent() == fn {
 				if r.Block().Index != 0 && len(r.Block().Preds) == 0 {
 					return
 				}
@@ -191,6 +191,13 @@ func checkC20(c *Check) {
 	// Serve: closed => ErrServerClosed before serving is set; start-all under the lock
 	if fn := p.Fn("Server.Serve"); fn != nil {
 		a := NewAnalysis(p, fn)
+		a.StoreHook = func(st *State, addr, val *Expr, in *ssa.Store) {
+			if addr.Op == "fa" && addr.S == "serving" {
+				if v, isC := st.evalBool(val).IsConst(); isC && v == 1 {
+					st.event("serving=true")
+				}
+			}
+		}
 		a.Run()
 		var servingStore ssa.Instruction
 		allInstrs(fn, func(in ssa.Instruction) {
@@ -214,7 +221,7 @@ func checkC20(c *Check) {
 			if !isGlobal(r.Results[0], "ErrServerClosed") {
 				continue
 			}
-			if servingStore != nil && !instrDominates(servingStore, r.Instr) {
+			if !r.State.must["serving=true"] {
 				n++
 				c.require(!r.State.may["call:peer.start"], "C20.2 serve-after-close", "Server.Serve", "closed before serving", p.InstrPos(r.Instr), "Serve on a closed server returns ErrServerClosed without starting anything")
 			}
